@@ -66,6 +66,22 @@ Theorem Q_instance_agrees : forall cs u pts d,
 Proof. exact Poly_Proofs.Q_instance_agrees. Qed.
 Print Assumptions Q_instance_agrees.
 
+(** sb_poly_make_linear has a second branch: for a duration below FLT_EPSILON
+    in magnitude the code returns the constant (x0+x1)/2 instead of dividing.
+    [make_bezier_c] is the transcription with that branch; it is the generic
+    [make_bezier] (the subject of the theorems above) on every other duration,
+    and on a tiny duration its value is the midpoint whatever the argument. *)
+Theorem make_bezier_c_agrees : forall d pts,
+  Qle_bool SB.Base.F32.FLT_EPSILON (Qabs' d) = true -> make_bezier_c d pts = make_bezier QOps d pts.
+Proof. exact Poly_Proofs.make_bezier_c_agrees. Qed.
+Print Assumptions make_bezier_c_agrees.
+
+Theorem make_linear_tiny_duration : forall d x0 x1 u,
+  Qle_bool SB.Base.F32.FLT_EPSILON (Qabs' d) = false ->
+  (horner QOps (make_linear_c d x0 x1) u == (x0 + x1) / 2)%Q.
+Proof. exact Poly_Proofs.make_linear_tiny. Qed.
+Print Assumptions make_linear_tiny_duration.
+
 Example bezier_example :
   horner ROps (make_bezier ROps 2 [0; 3; 3; 6]) 1 = 3.
 Proof. exact Poly_Proofs.bezier_example. Qed.
